@@ -107,8 +107,45 @@ def cas_prog(X, T, m, R, sa):
         + isa.push(T) + isa.push(X) + O('CHECK_ADAPTER_SIG')
 
 
+IDENTITY = b'\x01' + bytes(31)         # 0*G: the tweak point of t = 0 (mod L)
+
+
+def judge_zero_tweak(ctx, rng, j, fixed=None):
+    """edge scalars t = 0 and t = L: T = t*G is the neutral element. An
+    'adapter' for it IS a plain signature (R + 0 = R, sa + 0 = sa), so the
+    instructions must not produce or accept one (the tree raises)."""
+    seed = rbytes(rng, 32)
+    m = rbytes(rng, rng.choice((0, 1, 32, 100)))
+    if fixed:
+        seed, m = fixed
+    X = E.public_key(seed)
+    pm = isa.push(m) if m else b'\x03\x00'
+    base = {'kind': 'zero-tweak', 'seed': seed, 'm': m}
+    ctx.evaluated()
+    st, exc = run(isa.push(seed) + pm + isa.push(IDENTITY)
+                  + O('MAKE_ADAPTER_SIG_PUBLIC'))
+    if exc is None and len(st) == 2 and E.verify(X, m, st[0] + st[1]):
+        ctx.violation('adapter-is-a-signature', 'MAKE_ADAPTER_SIG_PUBLIC '
+                      'accepts the neutral element as tweak point: the '
+                      'adapter it returns verifies as a plain signature',
+                      dict(base, op='make'))
+        return
+    sig = E.sign(seed, m)
+    ctx.evaluated()
+    st, exc = run(cas_prog(X, IDENTITY, m, sig[:32], sig[32:]))
+    if exc is None and st == [b'\xff']:
+        ctx.violation('adapter-is-a-signature', 'CHECK_ADAPTER_SIG accepts a '
+                      'plain signature as an adapter for the neutral tweak '
+                      'point', dict(base, op='check'))
+        return
+    ctx.count('zero_tweak_points_refused')
+    ctx.mark_nontrivial(dg('zero', seed, m))
+
+
 def judge_tuple(ctx, rng, j):
     functions = env.mods()[0]
+    if j % 12 == 5:
+        judge_zero_tweak(ctx, rng, j)
     seed = rbytes(rng, 32)
     m = rbytes(rng, rng.choice((0, 1, 32, 100, 255, 256, 512)))
     tk, t = tweak_for(rng, j)
@@ -413,6 +450,9 @@ def finalize(agg, tier):
 
 
 def replay(case, ctx):
+    if case.get('kind') == 'zero-tweak':
+        return judge_zero_tweak(ctx, ctx.rng('replay'), 0,
+                                (case['seed'], case['m']))
     rng = ctx.rng('replay')
     if case.get('kind') == 'tuple':
         # re-run the same tuple through the whole battery
